@@ -415,6 +415,71 @@ def subset_guard(ctx, rule, body, a_need, b_need, what):
     return None
 
 
+# CONVERSION idioms: a conversion into T is reached through T's own impl or through the reciprocal blanket trait
+#   T::try_from(x) == <T as TryFrom<S>>::try_from(x)   ==  x.try_into() == <S as TryInto<T>>::try_into(x)
+#   T::from(x)     == <T as From<S>>::from(x)          ==  x.into()     == <S as Into<T>>::into(x)
+PAIR_SRC = r'(std::vec::Vec<u64>|sorted_ids::SortedIds|sorted_ids::BinaryIds)'
+CONV_PAIR = r'<sorted_ids::BinaryIdPair as std::convert::TryFrom<%s>>::try_from$|<%s as std::convert::TryInto<sorted_ids::BinaryIdPair>>::try_into$' % (PAIR_SRC, PAIR_SRC)
+CONV_SET = r'<sorted_ids::BinaryIds as std::convert::From<sorted_ids::SortedIds>>::from$|<sorted_ids::SortedIds as std::convert::Into<sorted_ids::BinaryIds>>::into$'
+
+
+def closure_of_operand(body, o):
+    """the closure an operand holds (its aggregate statement, through plain copies): [def path] or []"""
+    for l in (plain_source(body, o) or ()):
+        d = single_def(body, l)
+        if d and d[0] == 'stmt' and d[2]['rv']['k'] == 'agg' and d[2]['rv']['adt'].startswith('closure:'): return [d[2]['rv']['adt'][8:]]
+    return []
+
+
+def keeps_only_non_negligible(ctx, cb):
+    """FILTER idiom on the term iterator: the predicate closure `cb` may drop an item only when a NEGLIGIBLE test on the
+    item's own coefficient says so (then the adaptor is the skip test of the loop, moved into the pipeline)"""
+    tests = [t for t in negligible_tests(ctx, cb, cb.live) if 2 in ctx.S.slice_operand(cb, t[2]).params]
+    if not tests: return False
+    big_true = {}          # bool local -> True if `true` means "not negligible"
+    tiny = set()
+    for bi, st, x, small_true, kind in tests:
+        big_true[st['dst']['l']] = not small_true
+        for sb, neg in T.bool_flow(cb, st['dst']['l']):
+            t, f = T.switch_sides(cb, sb, neg)
+            small = t if small_true else f
+            if small is not None: tiny.add(small)
+    def polarity(l, depth=6):
+        """does bool local l mean "keep because not negligible" (True) / its negation (False) / unknown (None)"""
+        if l in big_true: return big_true[l]
+        d = single_def(cb, l)
+        if d is None or depth == 0: return None
+        if d[0] == 'call':
+            c = [y for y in cb.calls if y.bb == d[1]][0]
+            if T.NOT_CALL.search(c.name) and c.arg_local(0) is not None:
+                p = polarity(c.arg_local(0), depth - 1); return None if p is None else not p
+            return None
+        rv = d[2]['rv']
+        if rv['k'] == 'use' and rv['ops'][0]['k'] in ('copy', 'move') and not rv['ops'][0]['pl']['p']: return polarity(rv['ops'][0]['pl']['l'], depth - 1)
+        if rv['k'] == 'un' and rv['op'] == 'Not' and rv['ops'][0]['k'] in ('copy', 'move'):
+            p = polarity(rv['ops'][0]['pl']['l'], depth - 1); return None if p is None else not p
+        return None
+    defs = [d for d in cb.defs_of(0) if not (d[0] == 'stmt' and d[2]['dst']['p'])]
+    if not defs: return False
+    for k, bi, d in defs:
+        if k != 'stmt': return False
+        rv = d['rv']; o = rv['ops'][0] if rv.get('ops') else None
+        if rv['k'] == 'use' and o['k'] == 'const' and o['v'] == 'true': continue
+        if rv['k'] == 'use' and o['k'] == 'const' and o['v'] == 'false':
+            if not must_pass_v(cb, 0, {bi}, tiny): return False          # a drop that no test on the coefficient justifies
+            continue
+        if rv['k'] in ('use', 'un', 'bin'):
+            # the returned bool is (a copy / negation of) a test result itself: false <=> negligible
+            tmp = d['dst']['l']
+            p = big_true.get(tmp)
+            if p is None and rv['k'] == 'use' and o['k'] in ('copy', 'move'): p = polarity(o['pl']['l'])
+            if p is None and rv['k'] == 'un' and rv['op'] == 'Not' and o['k'] in ('copy', 'move'):
+                q = polarity(o['pl']['l']); p = None if q is None else not q
+            if p is True: continue
+        return False
+    return True
+
+
 def negligible_tests(ctx, body, blocks):
     """NEGLIGIBLE idioms: comparisons that decide whether an f64 is (numerically) zero.
        |x| <  EPSILON, |x| <= EPSILON, EPSILON > |x|, ... (any order / strictness; f64::EPSILON only)
@@ -495,16 +560,22 @@ def export_rules(ctx, name, keyty, qubo):
     from_item = lambda s: nextc in s.call_objs
     map_rooted = lambda o: rooted_in(body, o, lambda c: c in mapcalls)
     ctx.check(all(body.dominates(header, e) for e in body.strict_ok_exits()), R + '/loop/dominates', 'T-MUSTCALL', body.name, 'term loop does not dominate the Ok-exit', body.site(nextc.bb))
-    restr = sorted({x.item for x in sl(nextc.args[0]).call_objs if x.item in RESTRICTING and 'Iterator' in (x.trait or '')})
-    ctx.check(not restr, R + '/loop/all-items', 'T-LOOPMUST', body.name, 'the term iterator is restricted by %s' % restr, body.site(nextc.bb))
+    # adaptors that survive normalisation (pipeline kept in a local): only a `filter` that is the skip test itself may drop terms
+    restr = []
+    for x in sl(nextc.args[0]).call_objs:
+        if x.item not in RESTRICTING or 'Iterator' not in (x.trait or ''): continue
+        cbs = [ctx.F.bodies.get(cn) for cn in closure_of_operand(body, x.args[1])] if x.item == 'filter' and len(x.args) == 2 else []
+        if cbs and all(cb is not None and cb.argc >= 2 and keeps_only_non_negligible(ctx, cb) for cb in cbs): continue
+        restr.append(x.item)
+    ctx.check(not restr, R + '/loop/all-items', 'T-LOOPMUST', body.name, 'the term iterator is restricted by %s' % sorted(restr), body.site(nextc.bb))
     # keys only through the canonicalising constructors
     aggs = [bi for bi, st in body.stmts() if st['rv']['k'] == 'agg' and re.search(r'sorted_ids::Binary(Ids|IdPair)$', st['rv']['adt'])]
     ctx.check(not aggs, R + '/keys/no-direct-construction', 'T-CARRY', body.name, 'key constructed directly at %s' % [body.site(b) for b in aggs], body.site())
-    conv = r'BinaryIdPair as std::convert::TryFrom<' if qubo else r'BinaryIds as std::convert::From<sorted_ids::SortedIds>>::from'
+    conv = CONV_PAIR if qubo else CONV_SET
     badk = [c for c in W if not (sl(c.args[KEYED[c.item]]).has_call(conv) and from_item(sl(c.args[KEYED[c.item]])))]
     ctx.check(not badk, R + '/keys/from-term-ids', 'T-CARRY', body.name, 'map key is not the canonicalised id set of the term', body.site((badk or W)[0].bb), sites=len(W))
     if qubo:
-        tf = [c for c in body.calls if c.item == 'try_from' and re.search(r'BinaryIdPair as std::convert::TryFrom', c.name) and c.bb in blocks]
+        tf = [c for c in body.calls if re.search(CONV_PAIR, c.name) and c.bb in blocks]
         ctx.check(len(tf) >= 1, R + '/guard/degree/try_from', 'T-GUARD', body.name, 'BinaryIdPair::try_from not called', body.site())
         # path formulation of `?` / match / let-else / map_err..: if try_from returns Err, no Ok-exit is reachable
         leaks = []
@@ -926,7 +997,7 @@ class PairShape:
 SRC = [('std::vec::Vec<u64>', 'Vec', False, False),            # nothing
        ('sorted_ids::SortedIds', 'SortedIds', True, False),    # sorted by construction (verified by sorted_ids_invariant), may repeat ids
        ('sorted_ids::BinaryIds', 'BinaryIds', True, True)]     # a BTreeSet: strictly increasing
-CONV_RE = r'BinaryIdPair as std::convert::TryFrom<(std::vec::Vec<u64>|sorted_ids::SortedIds|sorted_ids::BinaryIds)>>::try_from'
+CONV_RE = CONV_PAIR
 
 
 def sorted_ids_invariant(ctx):
